@@ -107,9 +107,8 @@ Proof.
   unfold recurse_out. intros H.
   destruct (structish_inner (sf_ty f)) as [inner|]; [| inversion H; auto].
   destruct (negb (should_recurse m)); [inversion H; auto|].
-  destruct (either_implements_tu (sf_ty f)); [inversion H; auto|].
-  destruct inner; try discriminate;
-    destruct (sub m _) as [[t' x]| |]; simpl in H; inversion H; auto.
+  destruct (either_implements_tu inner); [inversion H; auto|].
+  destruct (sub m inner) as [[t' x]| |]; simpl in H; inversion H; auto.
 Qed.
 
 Lemma recurse_outs_names m outs rec : recurse_outs sub m outs = Ok rec ->
